@@ -156,3 +156,23 @@ pub fn tier_mul(t: Tier) -> u64 {
         Tier::Thorough => 20,
     }
 }
+
+pub fn name_class(n: &str) -> &'static str {
+    if n.contains('\t') {
+        "tab"
+    } else if n.len() == 128 {
+        "128"
+    } else if n.contains('=') {
+        "equals"
+    } else if n.contains('#') {
+        "hash"
+    } else if n.contains("[Key]") {
+        "section"
+    } else if !n.is_ascii() {
+        "unicode"
+    } else if n.contains(' ') {
+        "space"
+    } else {
+        "plain"
+    }
+}
